@@ -133,13 +133,15 @@ type Exec struct {
 	model  smt.Model
 	known  map[*smt.Term]bool
 
-	globals map[*ssa.Global]*Value
-	pkgInit map[*ssa.Package]bool
+	constCache map[*ssa.Const]Value
+	globals    map[*ssa.Global]*Value
+	pkgInit    map[*ssa.Package]bool
 
 	steps    int
 	maxSteps int
 	depth    int
 	lenient  int
+	curInit  *ssa.Function
 	spec     int
 	noMerge  bool
 
@@ -807,6 +809,7 @@ func (x *Explorer) done1() {
 // Run explores the harness exhaustively (within its bounds) and returns merged statistics.
 func (x *Explorer) Run() (*Stats, error) {
 	x.cond = sync.NewCond(&x.mu)
+	debug.SetGCPercent(800)
 	if x.NWorker <= 0 {
 		x.NWorker = 1
 	}
@@ -942,6 +945,7 @@ func (x *Explorer) newExec(w *Worker, it Item) *Exec {
 	e := &Exec{p: x.P, w: w, c: w.ctx, prefix: it.Prefix, model: it.Model}
 	e.known = map[*smt.Term]bool{}
 	e.globals = map[*ssa.Global]*Value{}
+	e.constCache = make(map[*ssa.Const]Value, 256)
 	e.pkgInit = map[*ssa.Package]bool{}
 	e.maxSteps = x.MaxStep
 	if e.maxSteps == 0 {
